@@ -149,8 +149,13 @@ static void gen_rowadd(const GenCtx &ctx, Case &c, int viewpct) {
   c.sets("op", op);
   gen_M(ctx, c, viewpct, 60, 1400);
   int m = (int)c.i("m"), n = (int)c.i("n");
-  int src = g::rng(0, m - 1), dst = g::rng(0, m - 1);
-  if (src == dst && (c.has("M.view") || m == 1 || g::coin(9, 10))) dst = (src + 1) % m;  // adding a row to itself: owned only, rarely
+  if (m == 1) {
+    m = 2;
+    c.set("m", 2);
+  }
+  // "adding one row to another": the two rows are distinct
+  int src = g::rng(0, m - 1), dst = g::rng(0, m - 2);
+  if (dst >= src) dst++;
   c.set("src", src).set("dst", dst);
   int off = g::wpick<int>({{2, 0}, {3, g::rng(0, n - 1)}, {2, std::min(n - 1, 64 * g::rng(0, (n - 1) / 64))},
                            {1, n - 1}, {1, std::max(0, std::min(n - 1, 64 * ((n - 1) / 64) + g::rng(-1, 1)))}});
